@@ -45,8 +45,13 @@ def gen_case(rng, tier, index):
                        len(p["lines"]))
             p["lines"].insert(min(1, cut), {"k": "call", "t": "newfn0"})
         if len(case["newfuncs"]) == 2 and rng.random() < 0.5:
+            # (by its name, or by a second label standing at its start)
+            tgt = "newfn0"
+            if rng.random() < 0.5:
+                tgt = "nf0_alias"
+                case["newfuncs"][0]["p"]["lines"].insert(0, {"l": tgt})
             case["newfuncs"][1]["p"]["lines"].insert(
-                1, {"k": "call", "t": "newfn0"})
+                1, {"k": "call", "t": tgt})
     elif case["funcs"] and rng.random() < 0.12:
         # the optional functionBlocks table is missing: the caller hands its
         # own Function objects over, functionEntries / functionNames exist
@@ -70,6 +75,10 @@ def new_function(rng, case, k):
         lines.append({"k": "call", "t": rng.choice(fnames)})
     for j in range(nlab):
         lines.append({"l": f"nf{k}_l{j}"})
+        lines.append({"k": rng.choice(gen_rewrite.ORD_KEYS)})
+    if rng.random() < 0.3:
+        # a label that nothing jumps to (reached by falling through)
+        lines.append({"l": f"nf{k}_m"})
         lines.append({"k": rng.choice(gen_rewrite.ORD_KEYS)})
     lines.append({"k": "ret"})
     return {"name": f"newfn{k}", "p": {"lines": lines}}
